@@ -58,8 +58,19 @@ def segment_sha(modname, node):
     return hashlib.sha256(seg.encode()).hexdigest()[:16], seg
 
 
+_fn_cache = {}
+
+
 def function_node(fn):
-    """AST node (FunctionDef / Lambda) of a host function object defined in /repo."""
+    """AST node (FunctionDef / Lambda) of a host function object defined in /repo (memoised per code object)."""
+    code = fn.__code__
+    hit = _fn_cache.get(code)
+    if hit is None:
+        hit = _fn_cache[code] = _function_node(fn)
+    return hit
+
+
+def _function_node(fn):
     code = fn.__code__
     modname = fn.__module__
     tree, _ = module_ast(modname)
